@@ -213,3 +213,24 @@ Theorem C03_indented_code_hypotheses :
    ~ code_text ($"  ") /\ code_line ($"x = 1") = $"    x = 1" ++ [10%Z]).
 Proof. split; [exact code_configs|exact code_instance]. Qed.
 Print Assumptions C03_indented_code_hypotheses.
+
+(* SETEXT HEADINGS (Proofs/SetextLaw.v): plain text lines - any number - followed by an underline of `=` or of `-` of any
+   length are one heading of level 1 or 2 holding the lines; Paragraph.read finds that nothing else interrupts the
+   paragraph at the underline ("--...-" is no list marker line: ListItem.pattern evaluated on it) and that
+   Paragraph.setext_pattern matches it (a greedy repetition of a capture group, evaluated exactly); the HTML is <h1> / <h2>
+   + the escaped lines.  At top level; inside a block quote the implementation switches the rule off (recorded finding). *)
+From Mistletoe Require Import Proofs.PlainProse Proofs.ProseLines Proofs.SetextLaw.
+Theorem C03_setext_heading : forall cfg o l ls c n,
+  plain_line l -> Forall cont_line ls -> (c = 61 \/ c = 45)%Z -> prose_config cfg = true ->
+  fst (fst (parse_lines cfg (setext_lines l ls c n))) = Document [SetextHeading (setext_level c) (repeat c (S n)) (prose_toks (l :: ls))] /\
+  render_html o (fst (fst (parse_lines cfg (setext_lines l ls c n)))) =
+  $"<h" ++ str_of_Z (setext_level c) ++ $">" ++ join [10%Z] (map (escape_html_text o) (l :: ls)) ++ $"</h" ++ str_of_Z (setext_level c) ++ $">" ++ [10%Z].
+Proof. intros. split; [apply setext_heading_parses|apply setext_heading_renders]; assumption. Qed.
+Print Assumptions C03_setext_heading.
+
+Theorem C03_setext_hypotheses :
+  plain_line ($"A title, (really)") /\ cont_line ($"over two lines") /\
+  setext_lines ($"A title") [$"two"] 45 2 = [$"A title" ++ [10%Z]; $"two" ++ [10%Z]; $"---" ++ [10%Z]] /\
+  str_of_Z (setext_level 61) = $"1" /\ str_of_Z (setext_level 45) = $"2".
+Proof. exact setext_instance. Qed.
+Print Assumptions C03_setext_hypotheses.
